@@ -124,7 +124,7 @@ class Parser:
             return Sequence(EnumLabels(schema["symbols"]), Enum(default=default))
 
         elif record_type == "null":
-            return Null()
+            return Null(default=default)
         elif record_type == "boolean":
             return Boolean(default=default)
         elif record_type == "string":
@@ -142,7 +142,7 @@ class Parser:
         elif record_type == "fixed":
             return Fixed(default=default)
         elif record_type in self.named_schemas:
-            return self._parse(self.named_schemas[record_type])
+            return self._parse(self.named_schemas[record_type], default)
         else:
             raise Exception(f"Unhandled type: {record_type}")
 
